@@ -114,6 +114,10 @@ def run(ctx):
         if tofile:
             fn = os.path.join(code, "out_%s_%s.txt" % (name, n))
             args += ["-o", fn]
+            if (n or 0) % 2 == 0:
+                # the file already exists and is longer than what this run writes (an earlier, larger run to the same name)
+                with open(fn, "wb") as f:
+                    f.write(b"left-over-of-an-earlier-run\n" * 3000)
         rc, out, err = common.run_cli(args, code, env, 120)
         data = out
         if tofile:
@@ -180,7 +184,7 @@ def run(ctx):
             corr.append(("size:" + name, False, "model prince and prince_ling.py --size differ for runs %s of %s" % (idx[:10], name)))
         else:
             corr.append(("size:" + name, True, ""))
-    rule = ("generated rulesets (Prince/grammar.txt over all their labels, ties), prince_ling.py as a subprocess with and without -o and "
+    rule = ("generated rulesets (Prince/grammar.txt over all their labels, ties), prince_ling.py as a subprocess with and without -o (every second -o file exists already and is longer) and "
             "--all_lower, unbounded and with --size N for N = 1, total, total+3, b-1/b/b+1 around group boundaries and strictly inside "
             "groups of equally probable words; output compared byte-wise with the in-process reference; non-trivial = N strictly inside a "
             "group; distinct by (ruleset, N)")
